@@ -51,7 +51,7 @@ def main():
 			{"name": "pyref", "path": "vf/ref", "serves_properties": sorted(p for p in claimed if TABLE[p]["engine"] == "pyref"),
 			 "kind_free_text": "real trx_toolkit codec functions called from the harness; results compared online with independent reference models"},
 			{"name": "csan", "path": "vf/cbuild.py", "serves_properties": sorted(p for p in claimed if TABLE[p]["engine"] == "csan"),
-			 "kind_free_text": "real C translation units from /repo compiled with clang -fsanitize=address,undefined and driven by op scripts; driver event logs checked against Python models"},
+			 "kind_free_text": "real C translation units from /repo compiled with clang -fsanitize=address,undefined and, as a twin fed the same input, -fsanitize=memory (reports or diverging output fail the case); driven by op scripts; for C06 also sanitizer-coverage callbacks used as interrupt injection points; driver event logs checked against Python models"},
 		],
 		"checks": checks,
 		"not_applicable": na,
